@@ -143,42 +143,53 @@ def takeDigits (s : Str) : Str × Str := (s.takeWhile isDigit, s.dropWhile isDig
 
 def digitsVal (ds : Str) : Nat := ds.foldl (fun acc c => acc * 10 + (c.toNat - '0'.toNat)) 0
 
-/-- parse a numeric literal accepted by the numericClass pattern into an exact decimal -/
-def parseNumber (s : Str) : Option Dec :=
-  let (neg, s1) := match s with
-    | '+' :: r => (false, r)
-    | '-' :: r => (true, r)
-    | _ => (false, s)
+/-- an optional leading sign: (negative?, rest) -/
+def splitSign (s : Str) : Bool × Str :=
+  match s with
+  | '+' :: r => (false, r)
+  | '-' :: r => (true, r)
+  | _ => (false, s)
+
+/-- the mantissa of a literal after its sign: (integer digits, fraction digits, rest) -/
+def mantOf (s1 : Str) : Option (Str × Str × Str) :=
   let (ip, s2) := takeDigits s1
-  let mant : Option (Str × Str × Str) :=   -- integer digits, fraction digits, rest
-    if !ip.isEmpty then
-      match s2 with
-      | '.' :: r => let (fp, s3) := takeDigits r; some (ip, fp, s3)
-      | _ => some (ip, [], s2)
-    else
-      match s2 with
-      | '.' :: r => let (fp, s3) := takeDigits r; if fp.isEmpty then none else some ([], fp, s3)
-      | _ => none
+  if !ip.isEmpty then
+    match s2 with
+    | '.' :: r => let (fp, s3) := takeDigits r; some (ip, fp, s3)
+    | _ => some (ip, [], s2)
+  else
+    match s2 with
+    | '.' :: r => let (fp, s3) := takeDigits r; if fp.isEmpty then none else some ([], fp, s3)
+    | _ => none
+
+/-- the optional exponent part: `[eE][+-]?\d+` up to the end of the text -/
+def expOf (rest : Str) : Option Int :=
+  match rest with
+  | [] => some 0
+  | c :: r =>
+    if c == 'e' || c == 'E' then
+      let (eneg, r1) := splitSign r
+      let (ed, r2) := takeDigits r1
+      if ed.isEmpty || !r2.isEmpty then none
+      else
+        let ev : Int := digitsVal ed
+        some (if eneg then -ev else ev)
+    else none
+
+/-- sign, mantissa and exponent put together -/
+def finishNumber (neg : Bool) (mant : Option (Str × Str × Str)) : Option Dec :=
   match mant with
   | none => none
   | some (ip, fp, rest) =>
     let m : Int := digitsVal (ip ++ fp)
     let m := if neg then -m else m
     let e0 : Int := -(fp.length : Int)
-    match rest with
-    | [] => some ⟨m, e0⟩
-    | c :: r =>
-      if c == 'e' || c == 'E' then
-        let (eneg, r1) := match r with
-          | '+' :: q => (false, q)
-          | '-' :: q => (true, q)
-          | _ => (false, r)
-        let (ed, r2) := takeDigits r1
-        if ed.isEmpty || !r2.isEmpty then none
-        else
-          let ev : Int := digitsVal ed
-          some ⟨m, e0 + (if eneg then -ev else ev)⟩
-      else none
+    (expOf rest).map (fun ev => ⟨m, e0 + ev⟩)
+
+/-- parse a numeric literal accepted by the numericClass pattern into an exact decimal -/
+def parseNumber (s : Str) : Option Dec :=
+  let (neg, s1) := splitSign s
+  finishNumber neg (mantOf s1)
 
 def isNumeric (s : Str) : Bool := (parseNumber s).isSome
 
